@@ -18,8 +18,9 @@ MOD = "debian.deb822"
 NAMES = ["gcc", "libfoo1", "a", "0ad", "g++", "lib-x.y+z", "python3.11"]
 QUALS = [None, "any", "native", "amd64", "a-b"]
 OPS = ["<<", "<=", "=", ">=", ">>"]
-VERS = ["1", "1.0-1", "2:1.0~rc1+b1", "0.1-2-3", "1a.b"]
-ARCHS = ["amd64", "i386", "linux-any", "any-arm", "hurd_x"]
+VERS = ["1", "1.0-1", "2:1.0~rc1+b1", "0.1-2-3", "1a.b", "2.7.STABLE9-4", "1.0~RC1", "1.0+B.a-Z9"]
+ARCHS = ["amd64", "i386", "linux-any", "any-arm", "hurd_x", "arm64", "armel", "armhf", "mips64el", "ppc64el", "riscv64", "s390x",
+         "kfreebsd-any", "x32"]
 PROFILES = ["stage1", "nocheck", "cross", "pkg.foo.bar", "a_b-c"]
 
 
@@ -33,7 +34,7 @@ def gen_atom(rng, PR, force=None):
     if force.get("arch", rng.random() < 0.4):
         mode = rng.choice(["plain", "negated", "mixed"])
         d["arch"] = [PR.ArchRestriction({"plain": True, "negated": False}.get(mode, rng.random() < 0.5), a)
-                     for a in rng.sample(ARCHS, rng.randint(1, 3))]
+                     for a in rng.sample(ARCHS, rng.choice([1, 2, 3, 3, 9, 10, 12, 14]))]
     if force.get("restrictions", rng.random() < 0.4):
         d["restrictions"] = [[PR.BuildRestriction(rng.random() < 0.5, p) for p in rng.sample(PROFILES, rng.randint(1, 3))]
                              for _ in range(rng.randint(1, 4))]
